@@ -955,6 +955,7 @@ impl AsnDefWriter {
 
     /// The order in which the fields of a struct are visited by the generated `write_seq` and
     /// `read_seq`: textual order for a SEQUENCE, canonical (tag) order for a SET
+    #[cfg(feature = "protobuf")]
     pub(crate) fn fields_in_encoding_order(
         fields: &[Field],
         extended_after_index: Option<usize>,
